@@ -89,7 +89,7 @@ def mutants(s, tier):
     """yield (kind, mutant) -- one-edit neighbours and structural edits of s"""
     n = len(s)
     ps = positions(n, tier)
-    ins_alpha = INSERT_QUICK if tier == "quick" else ALPHABET
+    ins_alpha = ALPHABET if tier != "quick" or n <= 64 else INSERT_QUICK
     yield "empty", ""
     for p in ps:
         for c in ALPHABET:
@@ -274,7 +274,7 @@ def build(tier, rng):
             names.remove(bad[0])
     by_name = {i.name: i for i in infos}
 
-    stats = {"mutants": 0, "verify_calls": 0, "parse_only": 0, "verifying_mutants": {}, "per_hasher_seconds": {}, "context_mutants": 0}
+    stats = {"mutants": 0, "verify_calls": 0, "parse_only": 0, "verifying_mutants": {}, "per_hasher_seconds": {}, "context_mutants": 0, "examples": {}}
     T = {"id": 0.0, "vf": 0.0, "nu": 0.0, "alt": 0.0, "ctx": 0.0, "arb": 0.0}  # seconds spent per group
 
     def judge_verifying(fan, info, sm, orig_obj, m, form, kind, via):
@@ -298,6 +298,9 @@ def build(tier, rng):
             cls = reencoding_class(sm.hash, ms)
         d = stats["verifying_mutants"].setdefault(info.name, {})
         d[f"{kind}/{cls}"] = d.get(f"{kind}/{cls}", 0) + 1
+        ex = stats["examples"].setdefault(info.name, {})
+        if f"{kind}/{cls}" not in ex or len(ms) < len(ex[f"{kind}/{cls}"][1]):
+            ex[f"{kind}/{cls}"] = [sm.hash, ms]
 
     def run_hasher_calls(info, sm, orig_obj, orig_cost, kind, m, form, arb=False):
         """identify / verify / needs_update of one hasher on one presented value"""
@@ -431,6 +434,15 @@ def build(tier, rng):
                 else:
                     # the context read the mutant as a hash of another scheme (e.g. a one-block bigcrypt hash is a
                     # des_crypt hash): fine iff the original is a hash of that scheme too, with the same bits
+                    ms = m if isinstance(m, str) else m.decode("latin-1")
+                    if info.name == "mssql2000" and picked == "mssql2005" and ms.lower() == sm.hash[:54].lower():
+                        # documented relation of the two formats: the 2005 digest is the first (case-sensitive) digest
+                        # of the 2000 format, so this truncation *is* the 2005 hash of the password (hashlib oracle)
+                        import hashlib
+
+                        salt = bytes.fromhex(ms[6:14])
+                        if hashlib.sha1(secret.encode("utf-16-le") + salt).hexdigest() == ms[14:].lower():
+                            continue
                     po, pm = call(pinfo.parse, sm.hash), call(pinfo.parse, m)
                     ov = call(pinfo.h.verify, secret, sm.hash, **pinfo.ctx())
                     ok = po[0] == "ok" and pm[0] == "ok" and ov == ("ok", True) and same_bits(pinfo, po[1], pm[1])[0]
@@ -481,12 +493,12 @@ def build(tier, rng):
             slow = tv > 0.004  # expensive digests: only every k-th digest-region substitution is verified
             k = 0
             nctx = 0
-            ctx_every = 5 if tier == "quick" else 2
+            ctx_every = 3 if tier == "quick" else 2
             for kind, m in mutants(s, sub_tier):
                 if m in seen or m == s:
                     continue
                 seen.add(m)
-                if not full and kind in ("sub", "ins") and (len(seen) % 4):
+                if not full and kind in ("sub", "ins") and (len(seen) % 2):
                     continue
                 if slow and kind in ("sub", "ins", "del", "trunc"):
                     k += 1
@@ -505,8 +517,8 @@ def build(tier, rng):
                     T["ctx"] += time.time() - t1
                     stats["context_mutants"] += 1
                     g_ctx.case((info.name, kind, m))
-                # bytes: every structural mutant, and a third of the positional ones in quick
-                if kind in ("sub", "ins") and tier == "quick" and (len(seen) % 3):
+                # bytes: every structural mutant, and half of the positional ones in quick
+                if kind in ("sub", "ins") and tier == "quick" and (len(seen) % 2):
                     continue
                 for form, mb in byte_forms(m):
                     run_hasher_calls(info, sm, orig_obj, orig_cost, kind, mb, form)
@@ -556,6 +568,7 @@ def build(tier, rng):
         "arbitrary_strings": len(arbs),
         "context_schemes": len(names) if ctx is not None else 0,
         "verifying_mutants_by_class": stats["verifying_mutants"],
+        "verifying_mutant_examples": stats["examples"],
         "slowest_hashers_seconds": slowest,
         "seconds": round(time.time() - t_start, 1),
     }
